@@ -63,20 +63,20 @@ def build_engines(want_plain=False):
             (main_src, aflags, "l2"),
             (os.path.join(HERE, "shim.cpp"), hflags, "")]
     eo, m1, m2, sh = build.compile_many(jobs)
-    l1 = build.link([eo, m1] + objs, os.path.join(build.BUILD, "bin", "clisim"), ["-fsanitize=address,undefined"])
+    l1 = build.link([eo, m1] + objs, os.path.join(build.BIN, "clisim"), ["-fsanitize=address,undefined"])
     # twin of L1: uninitialised automatic variables are zero instead of a garbage pattern
     zobjs = build.lib_objects("asanz")
     zflags = build.VARIANTS["asanz"] + build.INCLUDES
     (mz,) = build.compile_many([(main_src, zflags + ["-include", os.path.join(HERE, "prelude.h")], "l1z")])
     global TWIN
-    TWIN = build.link([eo, mz] + zobjs, os.path.join(build.BUILD, "bin", "clisim_z"), ["-fsanitize=address,undefined"])
-    l2 = build.link([sh, m2] + objs, os.path.join(build.BUILD, "bin", "gm2calc_l2"), ["-fsanitize=address,undefined", "-ldl"])
+    TWIN = build.link([eo, mz] + zobjs, os.path.join(build.BIN, "clisim_z"), ["-fsanitize=address,undefined"])
+    l2 = build.link([sh, m2] + objs, os.path.join(build.BIN, "gm2calc_l2"), ["-fsanitize=address,undefined", "-ldl"])
     pl = None
     if want_plain:
         pobjs = build.lib_objects("plain")
         pflags = build.VARIANTS["plain"] + build.INCLUDES
         pm, ps = build.compile_many([(main_src, pflags, "plain"), (os.path.join(HERE, "shim.cpp"), pflags, "plain")])
-        pl = build.link([ps, pm] + pobjs, os.path.join(build.BUILD, "bin", "gm2calc_plain"), ["-ldl"])
+        pl = build.link([ps, pm] + pobjs, os.path.join(build.BIN, "gm2calc_plain"), ["-ldl"])
     return l1, l2, pl
 
 
